@@ -267,6 +267,10 @@ def main(tier):
     # the Abbott-Marder state equation of IonotropicSynapse is the closed-form postcondition of its C03 contract
     t = "jaxley.synapses.ionotropic:IonotropicSynapse.update_states"
     collect(ck, [("ok", common.verify_one(K.REG[t], K.REG, tier, only=lambda n: n.startswith("closed_form")))])
+    # the steady states handed out by init_state are those of the (published) gates: init_state contract, modular
+    outs_i = run_units("jxverif.props.common", "worker_verify", [("jxverif.kernels", "REG", t, tier, False, ["steady state of its own gate"], None) for t in K.INIT_TARGETS])
+    from .C14 import replay_fixed_point
+    collect(ck, outs_i, replay=lambda t, r: (replay_fixed_point(t, r), {"kind": "c14", "replay_module": "jxverif.props.C14", "target": t}))
     for (kind, t, can), o in zip([c for c in CANARIES if c[0] == "gate"] + [c for c in CANARIES if c[0] == "mech"], outs_g[len(gate_args):] + outs_m[len(mech_args):]):
         ref = o[0] == "ok" and (any(r["status"] == "refuted" for r in o[1]["results"]) or o[1]["error_kind"] == "api")
         ck.canaries.append((f"{can[0]}: {can[2]!r} -> {can[3]!r}", ref))
